@@ -141,7 +141,14 @@ pub fn execute(run: &Run) -> Result<Observed, String> {
                     prf: Some(passkey_types::webauthn::AuthenticationExtensionsPrfInputs { eval: Some(passkey_types::webauthn::AuthenticationExtensionsPrfValues { first: vec![7u8; 9].into(), second: (sc.prf > 1).then(|| vec![8u8; 3].into()) }), eval_by_credential: None }),
                     prf_already_hashed: None,
                 });
-                let req = cer::creation_options(site.rp, b"c07", b"new-user", "u", if sc.algs_supported { &[-257, -7] } else { &[-257] }, list(b"selected-cred-0001"), Some(cer::selection(None, sc.rk, uvr)), ext);
+                let mut req = cer::creation_options(site.rp, b"c07", b"new-user", "u", if sc.algs_supported { &[-257, -7] } else { &[-257] }, list(b"selected-cred-0001"), Some(cer::selection(None, sc.rk, uvr)), ext);
+                // the attestation conveyance preference varies with the scenario (none / indirect / direct / enterprise), and
+                // so do hints and the timeout: whatever the client makes of them, an error leaves the store as it was
+                {
+                    use passkey_types::webauthn::AttestationConveyancePreference as Att;
+                    req.public_key.attestation = [Att::None, Att::Indirect, Att::Direct, Att::Enterprise][(sc.store_yields + sc.script.yields * 3 + sc.list as usize + sc.prf as usize) % 4];
+                    req.public_key.timeout = [None, Some(0), Some(60_000), Some(u32::MAX)][(sc.store_yields + sc.list as usize) % 4];
+                }
                 Box::pin(async move {
                     match c.register(site.origin(), req, passkey_client::DefaultClientData).await {
                         Ok(cred) => Ok(crate::model::authdata::decode(&cred.response.authenticator_data).ok().map(|d| d.counter)),
